@@ -97,3 +97,19 @@ func isFlagSet(name string) bool {
 	})
 	return set
 }
+
+func init() {
+	if os.Getenv("ARVCHECK_DEBUG_LOAD") != "" {
+		w, err := Load("/repo", []string{"./lib/controller/..."}, false, nil)
+		fmt.Println("err:", err)
+		if w != nil {
+			for _, e := range w.LoadErrs {
+				fmt.Println(e)
+			}
+			for _, p := range w.Roots {
+				fmt.Println(p.PkgPath, p.IllTyped, len(p.Errors))
+			}
+		}
+		os.Exit(0)
+	}
+}
